@@ -125,7 +125,7 @@ ATOMS = [u"alfa", u"bravo", u" ", u" AND ", u" OR ", u"NOT ", u" ANDNOT ", u" RE
          u"^x", u"~/", u"text:", u"special:", u"<<", u">>", u"true", u"now"]
 NA = len(ATOMS)
 # the most structure-bearing atoms, used for the longer strings of the thorough tier
-CORE = [0, 2, 3, 4, 5, 6, 8, 9, 10, 12, 13, 14, 15, 16, 18, 19, 21, 22, 23, 25]
+CORE = [0, 2, 3, 4, 5, 8, 9, 10, 12, 13, 14, 15, 18, 22]
 NCORE = len(CORE)
 
 
@@ -155,7 +155,7 @@ def total(text):
 
 LQ = 3
 NJ = 12
-NAQ = tiered(32, NA)      # the quick tier draws from the first 32 atoms
+NAQ = tiered(32, 45)      # the quick tier draws from the first 32 atoms, the thorough tier from the first 45 (all 59 are swept concretely in development)
 
 
 def _mk_total(j):
@@ -170,7 +170,7 @@ def _mk_total(j):
               "whoosh.qparser.plugins.*", "whoosh.qparser.taggers.*", "whoosh.qparser.syntax.*", "whoosh.qparser.dateparse.DateParserPlugin",
               "whoosh.fields.*.parse_query", "whoosh.fields.*.parse_range", "whoosh.searching.Searcher.search"],
        examples=[dict(a=lo, b=3, c=9), dict(a=lo, b=16, c=20)], timeout=dict(quick=900, thorough=3000),
-       outside="strings of more than %d atoms (thorough: 4 atoms over a 20-atom core alphabet), atoms outside the alphabet" % LQ)
+       outside="strings of more than %d atoms (thorough: 4 atoms over a 14-atom core alphabet), atoms outside the alphabet" % LQ)
     def harness(a: int, b: int, c: int) -> Optional[str]:
         """
         pre: lo <= a < hi and 0 <= b < NAQ and 0 <= c < NAQ
@@ -194,7 +194,7 @@ for _j in range(NJ):
 def _mk_total4(j):
     name = "c16_total4_%02d" % j
 
-    @h(bounds="every string of 4 atoms from the 20-atom core alphabet (words, space, AND/OR/NOT/ANDNOT, parentheses, quote, colon, caret, tilde, brackets, TO, "
+    @h(bounds="every string of 4 atoms from the 14-atom core alphabet (word, space, AND/OR/NOT, parentheses, quote, colon, caret, tilde, bracket, TO, "
               "wildcard, t:/n:/d: prefixes, digit), first atom %r; 10 parser configurations; parse then search" % ATOMS[CORE[j]],
        funcs=["whoosh.qparser.default.QueryParser.parse", "whoosh.qparser.plugins.*", "whoosh.searching.Searcher.search"],
        examples=[dict(b=3, c=9, d=1)], timeout=dict(quick=900, thorough=3000), tiers=("thorough",),
@@ -354,9 +354,9 @@ def meaning(pi, ops, nots, conns, paren):
 
 
 # operands used in second position of two-operand expressions (first position ranges over all), and in three-operand ones
-SUB = list(range(NOPS)) if THOROUGH else [0, 1, 5, 8, 12, 24, 29, 31]
+SUB = [0, 1, 2, 4, 5, 6, 8, 9, 10, 12, 13, 14, 16, 18, 20, 22, 24, 27, 29, 31] if THOROUGH else [0, 1, 5, 8, 12, 24, 29, 31]
 NSUB = len(SUB)
-TRI = [0, 1, 12, 5, 8] if THOROUGH else [0, 1, 12]
+TRI = [0, 1, 12, 8] if THOROUGH else [0, 1, 12]
 NTRI = len(TRI)
 MFUNCS = ["whoosh.qparser.default.QueryParser.parse", "whoosh.qparser.plugins.OperatorsPlugin", "whoosh.qparser.plugins.GroupPlugin",
           "whoosh.qparser.plugins.FieldsPlugin", "whoosh.qparser.plugins.PhrasePlugin", "whoosh.qparser.plugins.RangePlugin",
@@ -392,7 +392,7 @@ def _mk_meaning3(pi):
 
     @h(bounds="%s parser: expressions [NOT] o1 c1 [NOT] o2 c2 [NOT] o3 with each operand among %d kinds (word, word, numeric range%s), connectors implicit/AND/OR, "
               "NOT flags, parentheses none/left/right: the precedence NOT > AND > OR > implicit group and explicit grouping; documents selected = documented reading"
-              % (MEANING_PARSERS[pi][0], NTRI, ", keyword term, phrase" if THOROUGH else ""),
+              % (MEANING_PARSERS[pi][0], NTRI, ", phrase" if THOROUGH else ""),
        funcs=MFUNCS, examples=[dict(o1=0, o2=1, o3=2, nn=1, c1=1, c2=2, pa=0), dict(o1=2, o2=0, o3=0, nn=4, c1=0, c2=1, pa=2)], timeout=dict(quick=900, thorough=3000),
        outside="expressions of more than 3 operands, scoring")
     def harness(o1: int, o2: int, o3: int, nn: int, c1: int, c2: int, pa: int) -> Optional[str]:
